@@ -15,6 +15,8 @@ Transliteration of
 * `core/src/core/compact_block.rs`: the order of `kern_ids` (`hashable_ord!(ShortId)`: by the
   blake2b hash of the 6 bytes)
   and its wire form (`Writeable` / `Readable for CompactBlockBody`: what the reader checks)
+* `pool/src/pool.rs`: `Pool::retrieve_transactions` (which pool transactions the node hydrates a
+  compact block from)
 
 Kernels are the codes `2*rank + coinbase` of `Model/Tx.lean`; what else the gates read of a kernel
 (feature tag, lock height / relative height, fee, the excess commitment) is supplied per code by
@@ -323,5 +325,47 @@ def compactRead (K : Keys) (sk : Nat → Nat) (w : List Nat × List Nat × List 
   match sortedUnique K.kk w.2.1 with
   | some e => some e
   | none => sortedUnique sk w.2.2
+
+/-! ## selecting the transactions a compact block is hydrated from (`pool/src/pool.rs`)
+
+`servers/src/common/adapters.rs: compact_block_received` calls
+`tx_pool.retrieve_transactions(cb.hash(), cb.nonce, cb.kern_ids())` and, when the list of missing
+ids is empty, hands the returned transactions to `Block::hydrate_from`. -/
+
+/-- state of the `'outer` loop of `retrieve_transactions`: transactions pushed, ids found, and
+whether `break 'outer` was taken -/
+structure Retr where
+  txs : List Tx
+  found : List Nat
+  done : Bool
+deriving DecidableEq, Repr
+
+/-- the inner `for k in x.tx.kernels()`: push the transaction once per kernel whose short id is
+asked for; `break 'outer` as soon as as many ids were found as were asked for (the test sits after
+the `if`, so it also fires on a kernel that did not match) -/
+def retrKernels (sid : Nat → Nat) (kernIds : List Nat) (tx : Tx) : Retr → List Nat → Retr
+  | r, [] => r
+  | r, k :: ks =>
+    let r := if kernIds.contains (sid k) then { r with txs := r.txs ++ [tx], found := r.found ++ [sid k] } else r
+    if r.found.length == kernIds.length then { r with done := true }
+    else retrKernels sid kernIds tx r ks
+
+/-- `'outer: for x in &self.entries` -/
+def retrLoop (sid : Nat → Nat) (kernIds : List Nat) : Retr → List Tx → Retr
+  | r, [] => r
+  | r, tx :: rest =>
+    let r := retrKernels sid kernIds tx r tx.kernels
+    if r.done then r else retrLoop sid kernIds r rest
+
+/-- `Vec::dedup` on transactions (`Transaction: PartialEq` = body and offset) -/
+def dedupAdjTx : List Tx → List Tx
+  | a :: b :: t => if a == b then dedupAdjTx (b :: t) else a :: dedupAdjTx (b :: t)
+  | l => l
+
+/-- `Pool::retrieve_transactions(hash, nonce, kern_ids)`: the transactions and the ids not found;
+`sid k` is `k.short_id(hash, nonce)` of kernel code `k` (any function: two kernels may collide) -/
+def retrieveTransactions (sid : Nat → Nat) (pool : List Tx) (kernIds : List Nat) : List Tx × List Nat :=
+  let r := retrLoop sid kernIds ⟨[], [], false⟩ pool
+  (dedupAdjTx r.txs, kernIds.filter (fun i => !r.found.contains i))
 
 end GV.Tx
